@@ -168,8 +168,9 @@ def run(prog: Program, rep: Report, tier: str) -> None:
             continue
         rep.bad("R14.1", f"path {k}: value", where, f"duration is computed as {T.show(inner)[:300]}; accepted forms: (E - S), (E + 1 day) - S, (E - S) + 1 day, (E - S) % 1 day", key="R14.1|value")
     complete = covered["mod"] or (covered["lt"] and covered["ge"])
-    if foreign and not complete:
-        rep.undecided("R14.1", "case split complete", where, f"{foreign} returning path(s) compute the duration in a form this rule does not compare")
+    n_und = sum(1 for ob in rep.obligations if ob.rule == "R14.1" and ob.verdict == "UNDECIDED")
+    if (foreign or n_und) and not complete:
+        rep.undecided("R14.1", "case split complete", where, f"{max(foreign, n_und)} returning path(s) compute the duration in a form this rule does not compare")
         return
     rep.check(complete, "R14.1", "case split complete", where, f"the cases end<start / end>=start are not both covered correctly: {covered}", key="R14.1|complete")
 
@@ -259,7 +260,7 @@ def _clock_leaf(t: Any, s_p: T.Term, e_p: T.Term) -> Optional[Tuple[str, str]]:
 
     if isinstance(t, tuple) and t[:1] == ("item",) and len(t) == 3 and T.is_c(t[2]) and t[2][1] in (0, 1):
         m = t[1]
-        if isinstance(m, tuple) and m[:1] == ("map",) and m[1] == ("app", "int", ("sym", "$e", ("elemof", m[2]))) or (isinstance(m, tuple) and m[:1] == ("map",) and isinstance(m[1], tuple) and m[1][:2] == ("app", "int") and len(m[1]) == 3 and m[1][2][:2] == ("sym", "$e")):
+        if isinstance(m, tuple) and (m[:1] == ("map",) or (m[:1] == ("mapobj",) and len(m) == 4)) and isinstance(m[1], tuple) and m[1][:2] == ("app", "int") and len(m[1]) == 3 and m[1][2][:2] == ("sym", "$e"):
             w = param_of_split(m[2])
             if w:
                 return (w, "hm"[t[2][1]])
